@@ -1007,8 +1007,26 @@ def differential(kind, ctx, why):
             return int(mm.group(1)) * spec_size_multiplier(mm.group(2).upper())
     short = z3.Length(x) <= 24
     probes = 0
-    # documented spellings: accepted, documented value
-    for w in _models(q, x, [z3.InRe(x, DOC), short, z3.InRe(x, cat(chars_re([(0x31, 0x39)]), z3.Star(_rx.sigma(False))))], 8, "doc"):
+    # documented spellings: accepted, documented value.  One solver model (two for the larger classes) per documented CLASS, so that every
+    # unit / scale letter x binary marker x trailing B x blank-or-not combination the documentation gives a value to is exercised
+    num = cat(chars_re([(0x31, 0x39)]), z3.Loop(D(), 0, 5))
+    classes = []
+    if kind == "duration":
+        for unit in SPEC_DURATION:
+            for sp in ("", " "):
+                classes.append(cat(num, lit_re(sp) if sp else None, lit_re(unit)))
+    else:
+        for sp in ("", " "):
+            for tail in ("", "b"):
+                classes.append(cat(num, lit_re(sp) if sp else None, ci(tail) if tail else None))
+                for c in SCALES:
+                    for binm in ("", "i"):
+                        classes.append(cat(num, lit_re(sp) if sp else None, ci(c), ci(binm) if binm else None, ci(tail) if tail else None))
+    docs = []
+    for ci_, Lc in enumerate(classes):
+        docs.extend(_models(q, x, [z3.InRe(x, Lc), z3.InRe(x, DOC), short], 2 if kind == "duration" else 1, "doc-class%d" % ci_))
+    info["documented_classes_probed"] = len(classes)
+    for w in docs:
         probes += 1
         try:
             got = fn(w)
